@@ -247,6 +247,8 @@ PROPS = {
         verus=[U("c13_named_iter", ["C13.V.NamedStrategyIter.exact_size", "C13.V.NamedStrategyIter.kth_block"]),
                U("c13_action_iter_predicates", ["C13.V.action_iter.next_lists_positive", "C13.V.action_iter.len_counts_positive"]),
                U("lib_plumbing", ["C13.V.as_named.pairs_tables", "C14.V.from_named.pairs_tables", "C14.V.from_named_eq.pairs_tables"]),
+               U("c14_slow_skeleton", ["C14.V.scan_import.offsets_are_prefix_sums (the importer writes infoset k's weights where the named view reads them)"]),
+               U("c14_hash_skeleton", ["C14.V.hash_import.is_its_phases"]),
                U("c18_truncate_sums_to_one", ["C18.V.truncate.sums_to_one (the named view of a truncated profile still sums to one)"]),
                U("c18_truncate_block", ["C18.V.truncate.rescale"]), U("c18_truncate_whole", ["C18.V.truncate.whole"]),
                U("c14_normalise", ["C14.V.normalise.weight_over_total (importing the view back yields the profile)"]),
@@ -319,6 +321,7 @@ PROPS = {
         verus=[U("c14_normalise", ["C14.V.normalise.weight_over_total", "C14.V.normalise.uninitialized"]), U("split_by", ["V.SplitsByMut.next.partition"]),
                U("lib_plumbing", ["C14.V.from_named.pairs_tables", "C14.V.from_named_eq.pairs_tables"]),
                U("c14_hash_skeleton", ["C14.V.hash_import.is_its_phases (no shortcut around validation / normalisation / the all-singles check)"]),
+               U("c14_slow_skeleton", ["C14.V.scan_import.offsets_are_prefix_sums", "C14.V.scan_import.is_its_phases"]),
                U("c14_hash_validate", ["C14.V.hash_import.rejects_bad_weight", "C14.V.hash_import.rejects_unknown_action", "C14.V.hash_import.stores_weight",
                                        "C14.V.hash_import.single_rejects_other_action", "C14.V.hash_import.single_rejects_bad_weight", "C14.V.hash_import.single_marks_seen",
                                        "C14.V.hash_import.dense_index"])],
